@@ -505,8 +505,16 @@ type FuncSpec struct {
 	GhostLets    []*Clause
 	EmitsC       []*Clause
 	RecvInv      []*Clause // assumed invariants of messages of a type (Name = type name, variable msg)
+	Asserts      []*AssertAt // "assert before "<stmt text prefix>" [name] expr": checked (and then assumed) each time the statement is reached
+	Defensive    []string  // "defensive <cond>": the branch of `if <cond>` is declared dead code and must be PROVED unreachable
 	modsResolved bool
 	ModObjs      map[string][]string // heap key -> parameter/receiver names whose object alone is modified (absent: any object)
+}
+
+// AssertAt: an assertion anchored at a statement of the function body, named by a prefix of its source text.
+type AssertAt struct {
+	Anchor string
+	C      *Clause
 }
 
 type SpecFunc struct {
@@ -573,7 +581,7 @@ type SpecFile struct {
 
 var clauseKeywords = map[string]bool{
 	"requires": true, "ensures": true, "modifies": true, "invariant": true, "loop": true,
-	"iter": true, "exit": true, "cancels": true, "blocks": true, "closureinv": true, "decreases": true, "emits": true, "recvinv": true, "flag": true, "use": true, "prop": true, "induction": true, "pattern": true,
+	"iter": true, "exit": true, "cancels": true, "blocks": true, "closureinv": true, "decreases": true, "emits": true, "recvinv": true, "flag": true, "use": true, "prop": true, "induction": true, "pattern": true, "defensive": true, "assert": true,
 	"field": true, "assumed": true, "pure": true, "end": true,
 }
 var headerKeywords = map[string]bool{"func": true, "type": true, "spec": true, "lemma": true, "ghost": true, "axiom": true, "package": true}
@@ -796,6 +804,32 @@ func parseSpecText(path, pkgPath string, lines []string, lineNos []int) (*SpecFi
 				return nil, err
 			}
 			curLoop.Iter = append(curLoop.Iter, c)
+		case "assert":
+			// assert before "<statement text prefix>" [name] <expr>
+			if curF == nil {
+				return nil, fmt.Errorf("%s:%d: assert outside func", path, it.line)
+			}
+			r := strings.TrimSpace(strings.TrimPrefix(rest, "before"))
+			if !strings.HasPrefix(rest, "before") || !strings.HasPrefix(r, "\"") {
+				return nil, fmt.Errorf("%s:%d: assert before \"<statement text>\" [name] <expr>", path, it.line)
+			}
+			q := strings.Index(r[1:], "\"")
+			if q < 0 {
+				return nil, fmt.Errorf("%s:%d: assert before: unterminated anchor", path, it.line)
+			}
+			anchor := strings.Join(strings.Fields(r[1:1+q]), " ")
+			c, err := mkClause(kw, r[q+2:], it.line)
+			if err != nil {
+				return nil, err
+			}
+			curF.Asserts = append(curF.Asserts, &AssertAt{Anchor: anchor, C: c})
+		case "defensive":
+			// defensive <condition text>: the then-branch of the `if` with exactly this condition is defensive dead code;
+			// instead of demanding that its exit is reachable (vacuity) the branch is proved unreachable and skipped
+			if curF == nil {
+				return nil, fmt.Errorf("%s:%d: defensive outside func", path, it.line)
+			}
+			curF.Defensive = append(curF.Defensive, strings.Join(strings.Fields(rest), " "))
 		case "blocks":
 			if curLoop == nil {
 				return nil, fmt.Errorf("%s:%d: blocks outside loop", path, it.line)
